@@ -84,7 +84,7 @@ def generate(rng, tier: str, index: int) -> dict:
         if rng.chance(0.2):
             caps.append(rng.choice(caps))  # duplicate
         rng.shuffle(caps)
-        opens.append({'kind': kind, 'hold': rng.choice([0, 3, 9, 90, 180, 65535]), 'caps': caps, 'one_param': rng.chance(0.5), 'ext': rng.choice([None, None, True]), 'pad': rng.choice([0, 0, 300])})
+        opens.append({'kind': kind, 'hold': rng.choice([0, 3, 9, 90, 180, 65535]), 'caps': caps, 'one_param': rng.chance(0.5), 'ext': rng.choice([None, None, True]), 'pad': rng.choice([0, 0, 300]), 'fit': rng.choice([None, None, 253, 254, 255, 255])})
     return {'micro_seed': rng.randint(1, 1 << 48), 'knobs': knobs(rng), 'conf': conf, 'opens': opens}
 
 
@@ -113,6 +113,17 @@ def peer_caps(spec: dict, peer_as: int) -> list[tuple[int, bytes]]:
     if spec.get('pad'):
         out.append((77, b'p' * 250))
         out.append((78, b'q' * (spec['pad'] - 250)))
+    if spec.get('fit') and not spec.get('pad') and not spec.get('ext'):
+        # optional parameters of exactly 253 / 254 / 255 bytes in the classic one-octet-length encoding (RFC 9072 only
+        # switches on Non-Ext OP Type 255): the last byte of the last capability sits at the very end
+        if spec['one_param']:
+            used = sum(4 + len(v) for _, v in out)
+            room = spec['fit'] - used - 4
+        else:
+            used = 2 + sum(2 + len(v) for _, v in out)
+            room = spec['fit'] - used - 2
+        if 0 <= room <= 251 and (spec['one_param'] or used + 2 + room - 2 <= 255):
+            out.append((79, bytes((i * 7) & 255 for i in range(room))))
     return out
 
 
